@@ -135,6 +135,7 @@ pub fn run_check(ctx: &Ctx) -> Report {
         });
     };
     // (a) fresh process per program, 16 at a time
+    crate::engine::note_current("done", "");
     let reference: Vec<String> = {
         let mut out = vec![String::new(); progs.len()];
         let idx: Vec<usize> = (0..progs.len()).collect();
@@ -205,7 +206,8 @@ pub fn run_check(ctx: &Ctx) -> Report {
             }
         }
     }
-    // (c) 16 threads
+    // (c) 16 threads (this thread only waits from here on)
+    crate::engine::note_current("done", "");
     let per_thread = progs.len() * 20 / 16 + 1;
     let progs_arc = std::sync::Arc::new(progs.clone());
     let ref_arc = std::sync::Arc::new(reference.clone());
